@@ -74,6 +74,15 @@ func main() {
 	var collect func(body ast.Node, rn string, depth int, acts *[]string)
 	collect = func(body ast.Node, rn string, depth int, acts *[]string) {
 		ast.Inspect(body, func(n ast.Node) bool {
+			if as, ok := n.(*ast.AssignStmt); ok {
+				// the receive time used by the tie-break rule: where it is recorded relative to validation and application
+				for _, l := range as.Lhs {
+					if sel, ok := l.(*ast.SelectorExpr); ok && sel.Sel.Name == "lastBlockReceived" {
+						*acts = append(*acts, "ActSetReceived")
+					}
+				}
+				return true
+			}
 			x, ok := n.(*ast.CallExpr)
 			if !ok {
 				return true
@@ -152,7 +161,7 @@ func main() {
 	}
 	text := "(* GENERATED by translate/forkorder from pkg/consensus/execute.go (Executer.process) — do not edit. *)\n" +
 		"From Coq Require Import List.\nFrom LE Require Import BFT.ForkChoice.\nImport ListNotations.\n" +
-		"Inductive action := ActValidate | ActApply | ActDelete | ActSync.\n" +
+		"Inductive action := ActValidate | ActApply | ActDelete | ActSync | ActSetReceived.\n" +
 		"Definition process_branches : list (fc_case * list action) := [\n" + strings.Join(lines, ";\n") + "\n].\n"
 	if *out == "" {
 		fmt.Print(text)
